@@ -24,3 +24,10 @@ package kvindex
 //@   fresh
 //@   ensures covers: forall f:Str :: has(idx.Fields, f) ==> (exists j :: 0 <= j && j < len(result) && result[j] == f)
 //@   ensures shape: soff(result) == 0 && len(result) >= 0
+
+// AddDocTx writes only keys of the index families; the graph key families are left
+// alone. TRUSTED here (proved under C09 together with the index invariant).
+//@ func (*KVIndex).AddDocTx
+//@   trusted
+//@   modifies KV.
+//@   ensures frame: forall k:Str :: !idxkey(k) ==> ((kvhas(k) <==> old(kvhas(k))) && kvval(k) == old(kvval(k)))
